@@ -984,11 +984,24 @@ where
                     let ic = e.state().count;
                     Val::w(v, sp.0, sp.1, c, ic)
                 };
+                // C13 / clone-built runs: the operator value is cloned (its own Clone impl) and the original dropped
+                macro_rules! opb {
+                    ($e:expr) => {{
+                        let o = $e;
+                        if clone_nodes() {
+                            let c = o.clone();
+                            drop(o);
+                            c.boxed()
+                        } else {
+                            o.boxed()
+                        }
+                    }};
+                }
                 let b: chumsky::pratt::Boxed<'a, 'a, I, Val, X<E>> = match op.fix.as_str() {
-                    "prefix" => prefix(op.bp, j, move |o: Val, r: Val, e: &mut _| w(Val::f("pre", o, r), e)).boxed(),
-                    "postfix" => postfix(op.bp, j, move |l: Val, o: Val, e: &mut _| w(Val::f("post", l, o), e)).boxed(),
-                    "infixl" => infix(left(op.bp), j, move |l: Val, o: Val, r: Val, e: &mut _| w(Val::f("in", Val::p(l, o), r), e)).boxed(),
-                    "infixr" => infix(right(op.bp), j, move |l: Val, o: Val, r: Val, e: &mut _| w(Val::f("in", Val::p(l, o), r), e)).boxed(),
+                    "prefix" => opb!(prefix(op.bp, j, move |o: Val, r: Val, e: &mut _| w(Val::f("pre", o, r), e))),
+                    "postfix" => opb!(postfix(op.bp, j, move |l: Val, o: Val, e: &mut _| w(Val::f("post", l, o), e))),
+                    "infixl" => opb!(infix(left(op.bp), j, move |l: Val, o: Val, r: Val, e: &mut _| w(Val::f("in", Val::p(l, o), r), e))),
+                    "infixr" => opb!(infix(right(op.bp), j, move |l: Val, o: Val, r: Val, e: &mut _| w(Val::f("in", Val::p(l, o), r), e))),
                     f => return Err(format!("unknown operator fixity {f}")),
                 };
                 bops.push(b);
